@@ -342,7 +342,15 @@ def _cli_dry_run(spec: Dict[str, Any], d: str) -> Dict[str, Any]:
         # the cap is given on the command line instead of in the file (same meaning, also for a cap of 0)
         block["max_runs"] = 1000
         argv += ["--run-space-max-runs", str(spec["max_runs"])]
-    cfg = clidrv.config_mapping([{"p": "VMarkerSource", "params": {"marker": "marker.txt"}}], run_space=block)
+    own = block
+    if (len(_freeze(spec)) // 3) % 2 == 1:
+        # the plan comes from --run-space-file; the pipeline file has a run_space section of its own, which the override
+        # REPLACES (keys the override file leaves at their defaults must not be inherited from it)
+        override = {k: v for k, v in block.items() if not ((k == "combine" and v == "combinatorial") or (k == "max_runs" and v == 1000))}
+        clidrv.write_yaml(os.path.join(d, "rs.yaml"), {"run_space": override})
+        own = {"combine": "by_position", "max_runs": 1, "blocks": [{"mode": "by_position", "context": {"own_key": [1, 2]}}]}
+        argv += ["--run-space-file", "rs.yaml"]
+    cfg = clidrv.config_mapping([{"p": "VMarkerSource", "params": {"marker": "marker.txt"}}], run_space=own)
     clidrv.write_yaml(os.path.join(d, "p.yaml"), cfg)
     res = clidrv.run_inprocess(argv, d)
     m = re.search(r"expanded_runs:\s*(\d+)", res["stdout"])
